@@ -1,15 +1,63 @@
 use crate::engine::{Adapter, DynProp};
 use std::sync::Arc;
 
+pub mod c01;
 pub mod c05;
+pub mod c06;
+pub mod c12;
+pub mod c13;
+pub mod c14;
+pub mod c15;
+pub mod c16;
+pub mod c19;
 pub mod c21;
+pub mod c28;
+pub mod c30;
+pub mod c31;
+pub mod c32;
+pub mod c33;
 pub mod c34;
+pub mod c35;
+pub mod c36;
+pub mod c37;
+pub mod c39;
+pub mod c40;
+pub mod c41;
+pub mod c43;
+pub mod conc;
 pub mod hist;
+pub mod rowmeta;
 
 pub fn registry() -> Vec<Box<dyn DynProp>> {
     vec![
+        Box::new(Adapter(Arc::new(c01::C01))),
         Box::new(Adapter(Arc::new(c05::C05))),
+        Box::new(Adapter(Arc::new(c06::C06))),
+        Box::new(Adapter(Arc::new(c12::C12))),
+        Box::new(Adapter(Arc::new(c15::C15))),
+        Box::new(Adapter(Arc::new(c16::C16))),
+        Box::new(Adapter(Arc::new(rowmeta::C07))),
+        Box::new(Adapter(Arc::new(rowmeta::C17))),
+        Box::new(Adapter(Arc::new(rowmeta::C18))),
+        Box::new(Adapter(Arc::new(c13::C13))),
+        Box::new(Adapter(Arc::new(c14::C14))),
+        Box::new(Adapter(Arc::new(conc::C03))),
+        Box::new(Adapter(Arc::new(conc::C04))),
+        Box::new(Adapter(Arc::new(conc::C24))),
+        Box::new(Adapter(Arc::new(c19::C19))),
         Box::new(Adapter(Arc::new(c21::C21))),
+        Box::new(Adapter(Arc::new(c28::C28))),
+        Box::new(Adapter(Arc::new(c30::C30))),
+        Box::new(Adapter(Arc::new(c31::C31))),
+        Box::new(Adapter(Arc::new(c32::C32))),
+        Box::new(Adapter(Arc::new(c33::C33))),
         Box::new(Adapter(Arc::new(c34::C34))),
+        Box::new(Adapter(Arc::new(c35::C35))),
+        Box::new(Adapter(Arc::new(c36::C36))),
+        Box::new(Adapter(Arc::new(c37::C37))),
+        Box::new(Adapter(Arc::new(c39::C39))),
+        Box::new(Adapter(Arc::new(c40::C40))),
+        Box::new(Adapter(Arc::new(c41::C41))),
+        Box::new(Adapter(Arc::new(c43::C43))),
     ]
 }
